@@ -69,7 +69,33 @@ def _field_bits(adapter):
         return 32      # LEB128-backed enumerations: codes are checked over 32 bits
 
 
-def _check_decode(ctx, where, decode, bits, signed=False):
+# names that belong to one processor / OS context: in an object of that context a code is reported under the context's name, never under
+# the name another vendor gave the same code (e.g. 0x6000000f is DT_SUNW_FILTER in a Solaris object and DT_ANDROID_REL elsewhere)
+CONTEXT_PREFIX = {
+    'EM_ARM': {'sh_type': ['SHT_ARM_'], 'p_type': ['PT_ARM_']},
+    'EM_AARCH64': {'sh_type': ['SHT_AARCH64_'], 'p_type': ['PT_AARCH64_'], 'd_tag': ['DT_AARCH64_']},
+    'EM_MIPS': {'sh_type': ['SHT_MIPS_'], 'p_type': ['PT_MIPS_'], 'd_tag': ['DT_MIPS_']},
+    'EM_RISCV': {'sh_type': ['SHT_RISCV_'], 'p_type': ['PT_RISCV_'], 'd_tag': ['DT_RISCV_']},
+    'EM_X86_64': {'sh_type': ['SHT_X86_64_']},
+    'ELFOSABI_SOLARIS': {'d_tag': ['DT_SUNW_']},
+}
+
+
+def _context_names(machine, osabi, field):
+    """code -> set of names the registries define for it in this processor / OS context (empty dict: no context-specific names)"""
+    out = {}
+    for key in (machine, osabi):
+        for pre in CONTEXT_PREFIX.get(key, {}).get(field, []):
+            names = [n for n in REG.registry() if n.startswith(pre)] + [n for n in REG.supplement() if n.startswith(pre)]
+            for n in names:
+                if n.endswith('_NUM'):      # table-size markers (DT_AARCH64_NUM, DT_MIPS_NUM), not codes
+                    continue
+                for v in _accepted(n):
+                    out.setdefault(v, set()).add(n)
+    return out
+
+
+def _check_decode(ctx, where, decode, bits, signed=False, prefer=None):
     """run the library's own decode step on a symbolic code v: a reported name must be the registry's name for v"""
     v = ctx.sint('v', bits) if signed else ctx.uint('v', bits)
     try:
@@ -87,6 +113,10 @@ def _check_decode(ctx, where, decode, bits, signed=False):
                 continue
             nchecked += 1
             ctx.check('%s/%s' % (where, obj), ctx.implies(cond, ctx.lor(*[v == a for a in sorted(acc)])))
+            # context priority: where the context's registry names code c, a name reported for c is one of the context's names
+            clash = [c for c in sorted(prefer or {}) if c in acc and obj not in prefer[c]]
+            if prefer:
+                ctx.check('%s/context-priority/%s' % (where, obj), ctx.implies(cond, ctx.land(*[v != c for c in clash])) if clash else True)
         else:
             # raw pass-through: must be the code itself
             ctx.check('%s/raw' % where, ctx.implies(cond, ctx.eq(obj, v)))
@@ -110,7 +140,8 @@ def h_decode_elf(ctx):
     owner, ad = ads[idx]
     where = '%s.%s' % (owner, ad.subcon.name)
     signed = type(ad.subcon).__name__ == 'FormatField' and ad.subcon.packer.format[-1] in 'bhilq'
-    n = _check_decode(ctx, where, lambda v: ad._decode(v, C.Container()), _field_bits(ad), signed)
+    n = _check_decode(ctx, where, lambda v: ad._decode(v, C.Container()), _field_bits(ad), signed,
+                      prefer=_context_names(cfg['machine'], cfg.get('osabi'), ad.subcon.name))
     ctx.outcome('ok')
 
 
